@@ -35,6 +35,20 @@ Print Assumptions C20_cf_pixel_location.
 Example C20_cf_pixel_location_ex : (2 <= 3)%Z /\ (2 <= 2)%Z /\ 1000 <> 0 /\ -500 <> 0.
 Proof. repeat split; try lia; lra. Qed.
 
+(* storage independence (any arithmetic, in particular binary64): the loaded area is a function of the stored VALUES
+   v[0], v[-1] and the length only - float32 / integer coordinate variables holding the same values load to the same area *)
+Theorem C20_cf_load_values_only : forall (T : Type) (OP : ops T) (xs xs' ys ys' : Z -> T) w h,
+  xs 0%Z = xs' 0%Z -> xs (w - 1)%Z = xs' (w - 1)%Z -> ys 0%Z = ys' 0%Z -> ys (h - 1)%Z = ys' (h - 1)%Z ->
+  cf_load OP xs ys w h = cf_load OP xs' ys' w h /\
+  load_axis_raises OP xs w = load_axis_raises OP xs' w /\ load_axis_raises OP ys h = load_axis_raises OP ys' h.
+Proof. exact @cf_load_values_only. Qed.
+Print Assumptions C20_cf_load_values_only.
+(* the seeded witness in binary64: 1 m UTM grid, centres on whole metres at northing 9,000,000: corners at .5 *)
+Example C20_cf_float32_witness_f64 :
+  let a := mk_area (499999.5)%float (8999999.5)%float (500006.5)%float (9000004.5)%float 7 5 in
+  f4_same (area_extent (cf_load F64 (cf_x F64 a) (cf_y_ns F64 a) 7 5)) (area_extent a) = true.
+Proof. vm_compute. reflexivity. Qed.
+
 (* ---------------------------------------------------------------- CF, south-to-north storage / descending x *)
 Theorem C20_cf_flipped_rows : forall a : area R, wf_area a -> (2 <= width a)%Z -> (2 <= height a)%Z ->
   let b := cf_load RO (cf_x RO a) (cf_y_sn RO a) (width a) (height a) in
